@@ -516,7 +516,36 @@ int main(int argc, char **argv) {
     outs() << n << "\n";
     return 0;
   }
-  if (argc < 2) { errs() << "usage: irdump <module.bc|.ll> | irdump --mark-accessors in.bc out.bc\n"; return 2; }
+  if (argc >= 5 && std::string(argv[1]) == "--mark-static") {
+    // irdump --mark-static in.bc out.bc keep1,keep2,...   every internal-linkage, non-recursive function that is
+    // not in the keep list becomes alwaysinline (a "focus" view: private helpers without a role are implementation detail)
+    LLVMContext Cx; SMDiagnostic Err;
+    std::unique_ptr<Module> M = parseIRFile(argv[2], Err, Cx);
+    if (!M) { Err.print(argv[0], errs()); return 2; }
+    std::set<std::string> keep;
+    { std::string k = argv[4], cur; for (char c : k) { if (c == ',') { if (!cur.empty()) keep.insert(cur); cur.clear(); } else cur += c; } if (!cur.empty()) keep.insert(cur); }
+    int n = 0;
+    for (auto &F : *M) {
+      if (F.isDeclaration() || F.isVarArg() || !F.hasLocalLinkage()) continue;
+      if (keep.count(F.getName().str())) continue;
+      if (F.hasFnAttribute(Attribute::NoInline) || F.hasFnAttribute(Attribute::OptimizeNone)) continue;
+      bool rec = false, addrTaken = false;
+      for (auto &BB : F) for (auto &I : BB) if (auto *CB = dyn_cast<CallBase>(&I)) {
+        Function *cf = dyn_cast<Function>(CB->getCalledOperand()->stripPointerCasts());
+        if (cf == &F) rec = true;
+      }
+      for (auto *U : F.users()) { auto *CB = dyn_cast<CallBase>(U); if (!CB || CB->getCalledOperand()->stripPointerCasts() != &F) addrTaken = true; }
+      if (rec || addrTaken) continue;
+      F.addFnAttr(Attribute::AlwaysInline); n++;
+    }
+    std::error_code EC;
+    raw_fd_ostream OS(argv[3], EC, sys::fs::OF_None);
+    if (EC) { errs() << EC.message() << "\n"; return 2; }
+    WriteBitcodeToFile(*M, OS);
+    outs() << n << "\n";
+    return 0;
+  }
+  if (argc < 2) { errs() << "usage: irdump <module.bc|.ll> | irdump --mark-accessors in.bc out.bc | irdump --mark-static in.bc out.bc keep,...\n"; return 2; }
   LLVMContext Cx; SMDiagnostic Err;
   std::unique_ptr<Module> M = parseIRFile(argv[1], Err, Cx);
   if (!M) { Err.print(argv[0], errs()); return 2; }
